@@ -39,7 +39,18 @@ def dec(code):
         return txt
     if kind == 'b':
         return txt == 'True'
+    if kind == 'p':                 # an SI prefix object, e.g. 'p:KILO'
+        import quantity.si_prefixes as P
+        return getattr(P, txt)
     raise ValueError(code)
+
+
+# hand-entered (SI brochure), independent of quantity.si_prefixes
+SI_PREFIX_EXP = {'YOCTO': -24, 'ZEPTO': -21, 'ATTO': -18, 'FEMTO': -15,
+                 'PICO': -12, 'NANO': -9, 'MICRO': -6, 'MILLI': -3,
+                 'CENTI': -2, 'DECI': -1, 'DECA': 1, 'HECTO': 2, 'KILO': 3,
+                 'MEGA': 6, 'GIGA': 9, 'TERA': 12, 'PETA': 15, 'EXA': 18,
+                 'ZETTA': 21, 'YOTTA': 24}
 
 
 @lru_cache(maxsize=None)
@@ -63,6 +74,8 @@ def val(code):
         return F(_stddec.Decimal(t))
     if kind == 'b':
         return F(int(txt == 'True'))
+    if kind == 'p':
+        return F(10) ** SI_PREFIX_EXP[txt]
     raise ValueError(code)
 
 
